@@ -255,6 +255,83 @@ fn multi_frame_cases(ctx: &mut Ctx, rounds: usize) {
     }
 }
 
+/// Inputs containing lines that are not valid UTF-8: such a line is lent as an error item (the reader has
+/// consumed it), and the passes after a rewind must lend the same mixture of items and errors as the first pass
+/// of a fresh lender (which is the reference here).
+fn invalid_utf8_cases(ctx: &mut Ctx, rounds: usize) {
+    let inputs: Vec<(&str, Vec<u8>)> = vec![
+        ("bad second line", b"first\nse\xFF\xFEcond line\nthird\nfourth\n".to_vec()),
+        ("bad first line", b"\xC3\x28\nsecond\n".to_vec()),
+        ("bad last line, unterminated", b"a\nb\n\xE2\x82".to_vec()),
+        ("two bad lines", b"ok\n\xFF\n\xFF\xFF\r\nok2\n".to_vec()),
+    ];
+    for (name, bytes) in inputs {
+        for kind in ["LineLender", "ZstdLineLender", "GzipLineLender"] {
+            if !ctx.case(|| format!("{kind} input with invalid UTF-8 ({name}) (all histories of <= {rounds} consume/rewind rounds)")) {
+                continue;
+            }
+            ctx.nontrivial();
+            let zst = zstd::encode_all(&bytes[..], 3).unwrap();
+            let gzd = gz(&bytes);
+            macro_rules! body {
+                ($mk:expr) => {{
+                    let pass = |l: &mut dyn FnMut() -> Option<Result<String, String>>| -> Vec<Result<String, String>> {
+                        let mut v = vec![];
+                        while let Some(x) = l() {
+                            v.push(x);
+                            if v.len() > 50 {
+                                break;
+                            }
+                        }
+                        v
+                    };
+                    let reference = guard(|| {
+                        let mut l = $mk;
+                        pass(&mut || l.next().map(|r| r.map(|s| s.to_owned()).map_err(|e| format!("{:?}", e.kind()))))
+                    });
+                    match reference {
+                        Outcome::Panic(m) => ctx.violation(&format!("C20|{kind}::next|panic"), format!("{name}: {m}")),
+                        Outcome::Ret(exp) => {
+                            for h in histories(exp.len(), rounds) {
+                                if h.is_empty() {
+                                    continue;
+                                }
+                                ctx.sub_evaluations += 1;
+                                let r = guard(|| -> Result<(), String> {
+                                    let mut l = $mk;
+                                    for &c in &h {
+                                        for _ in 0..c {
+                                            if l.next().is_none() {
+                                                break;
+                                            }
+                                        }
+                                        l = l.rewind().map_err(|e| format!("rewind failed: {e}"))?;
+                                    }
+                                    let got = pass(&mut || l.next().map(|r| r.map(|s| s.to_owned()).map_err(|e| format!("{:?}", e.kind()))));
+                                    if got != exp {
+                                        return Err(format!("after consuming {h:?} and rewinding: {got:?}, first pass of a fresh lender: {exp:?}"));
+                                    }
+                                    Ok(())
+                                });
+                                match r {
+                                    Outcome::Ret(Ok(())) => {}
+                                    Outcome::Ret(Err(e)) => ctx.violation(&format!("C20|{kind}::rewind|items-after-rewind!=first-pass"), format!("{name}: {e}")),
+                                    Outcome::Panic(m) => ctx.violation(&format!("C20|{kind}::rewind|panic"), format!("{name}: {m}")),
+                                }
+                            }
+                        }
+                    }
+                }};
+            }
+            match kind {
+                "LineLender" => body!(LineLender::new(BufReader::with_capacity(8, Cursor::new(bytes.clone())))),
+                "ZstdLineLender" => body!(ZstdLineLender::new(Cursor::new(zst.clone())).unwrap()),
+                _ => body!(GzipLineLender::new(Cursor::new(gzd.clone())).unwrap()),
+            }
+        }
+    }
+}
+
 fn iter_cases(ctx: &mut Ctx, rounds: usize) {
     for n in 0..=4usize {
         let mut t: Vec<usize> = vec![0, 1, n.saturating_sub(1), n, n + 1];
@@ -341,6 +418,7 @@ fn main() {
         }
     }
     multi_frame_cases(&mut ctx, rounds);
+    invalid_utf8_cases(&mut ctx, 2);
     iter_cases(&mut ctx, rounds);
     ctx.finish();
 }
